@@ -8,10 +8,10 @@ EXTENDS WriteBufAbs, TLC
 CONSTANTS Depth, MaxW
 Init == InitWith([bufferSize |-> 2])
 Sizes == 0..3
-EndNone == End("dowrite", "none")
-EndDone == End("dowrite", "done")
+EndNone == End("dowrite", "none") /\ stack # <<>>
+EndDone == End("dowrite", "done") /\ stack # <<>>
 EndDoneData == End("dowrite", "done") /\ written > 2 \* an orderly close after data was written and handed over
-EndLost == End("dowrite", "lost")
+EndLost == End("dowrite", "lost") /\ stack # <<>>
 HalfClose == WClose /\ written > 0                    \* a half-close after data
 Next == \/ \E n \in Sizes : Write(n)
         \/ \E ns \in {<<>>, <<1, 2>>, <<0, 3>>} : WriteSeq(ns)
